@@ -2,10 +2,16 @@ use crate::engine::{Acc, Ctx};
 use serde_json::Value;
 
 pub mod c01;
+pub mod c02;
+pub mod c03;
+pub mod c15;
 
 pub fn run(ctx: &Ctx) -> i32 {
     match ctx.prop.as_str() {
         "C01" => c01::run(ctx),
+        "C02" => c02::run(ctx),
+        "C03" => c03::run(ctx),
+        "C15" => c15::run(ctx),
         other => {
             eprintln!("unknown property {}", other);
             2
@@ -16,6 +22,9 @@ pub fn run(ctx: &Ctx) -> i32 {
 pub fn replay(prop: &str, op: &str, case: &Value, acc: &mut Acc) -> bool {
     match prop {
         "C01" => c01::replay(op, case, acc),
+        "C02" => c02::replay(op, case, acc),
+        "C03" => c03::replay(op, case, acc),
+        "C15" => c15::replay(op, case, acc),
         _ => false,
     }
 }
